@@ -314,6 +314,28 @@ func adapters(r *lib.Report) (int64, int64) {
 			bad("currydef", "two CurryNew instances of one function: invocations %v, results %v / %v %s", seen, c1.Result(), c2.Result(), p)
 		}
 	}
+	// the first Call spreads a caller-owned slice with spare capacity into two curries; the caller then overwrites it
+	{
+		buf := make([]int, 1, 4)
+		buf[0] = 1
+		var seen1, seen2 []string
+		c1 := fpgo.CurryNewGenerics(func(c *fpgo.CurryDef[int, string], a ...int) string { seen1 = append(seen1, fmt.Sprint(a)); return fmt.Sprint(a) })
+		c2 := fpgo.CurryNewGenerics(func(c *fpgo.CurryDef[int, string], a ...int) string { seen2 = append(seen2, fmt.Sprint(a)); return fmt.Sprint(a) })
+		p := lib.Catch(func() {
+			c1.Call(buf...)
+			c2.Call(buf...)
+			c1.Call(2)
+			c2.Call(3)
+			buf[0] = 9
+			c1.Call(4)
+			c2.Call(5)
+		})
+		trans++
+		states++
+		if p != "" || fmt.Sprint(seen1) != "[[1] [1 2] [1 2 4]]" || fmt.Sprint(seen2) != "[[1] [1 3] [1 3 5]]" {
+			bad("currydef", "two CurryDefs whose first Call spread the same slice (len 1, cap 4), which the caller overwrites later: invocations %v and %v %s", seen1, seen2, p)
+		}
+	}
 	return states, trans
 }
 
@@ -504,6 +526,7 @@ func patterns(r *lib.Report, tier string, samples *[]interface{}) (int64, int64)
 		eqSpecs = append(eqSpecs, patSpec{"Equal(" + ev.name + ")", func(t string) fpgo.Pattern { return fpgo.InCaseOfEqual(ev.v, eff(t)) },
 			func(v interface{}) bool { return ev.v == v }})
 	}
+	eqSpecs = append(eqSpecs, patSpec{"Regex(invalid)", func(t string) fpgo.Pattern { return fpgo.InCaseOfRegex("a(", eff(t)) }, func(v interface{}) bool { return false }})
 	eqSpecs = append(eqSpecs, specs[5])
 	var eqOrders [][]int
 	var gen2 func(cur []int, used int)
@@ -542,8 +565,14 @@ func patterns(r *lib.Report, tier string, samples *[]interface{}) (int64, int64)
 				}
 			}
 			got := ""
-			if p := lib.Catch(func() { got = fmt.Sprint(pm.MatchFor(pb.v)) }); p != "" {
-				got = "PANIC"
+			for twice := 0; twice < 2; twice++ { // the second evaluation of the same list must answer the same
+				got = ""
+				if p := lib.Catch(func() { got = fmt.Sprint(pm.MatchFor(pb.v)) }); p != "" {
+					got = "PANIC"
+				}
+				if got != want {
+					break
+				}
 			}
 			if got != want {
 				r.Violation(fmt.Sprintf("C20|match-equal|probe=%s", pb.name), fmt.Sprintf("patterns %v, value %s: MatchFor gave %s, the first pattern whose value == the probe gives %s", names, pb.name, got, want),
